@@ -139,6 +139,7 @@ def generate(rng, opts):
         cfg["module_forms"] = [[["py"]], [["py"], ["py", "pyi"], ["pyi"]], [["py"], ["py", "pyi"], ["ext"], ["pyc"]]][rng.randrange(3)]
         cfg["extra_shapes"] = [s for s in cfg["extra_shapes"] if s != "conflict"]
         cfg["_memo"] = {}
+    cfg["top_conflict"] = rng.random() < 0.3
     n_sp = rng.choice([1, 2, 2, 3])
     dirs = []
     tops = rng.sample(TOP_NAMES, rng.choice([1, 1, 2]))
@@ -154,6 +155,10 @@ def generate(rng, opts):
                 _gen_module_files(rng, files, sp, "", top, cfg, forms=rng.choice([["py"], ["py", "pyi"]]))
             else:
                 _gen_dir(rng, files, sp, "", top, cfg, 1, style)
+                if cfg["top_conflict"] and style != "pkgutil" and rng.random() < 0.5:
+                    # a module file next to the directory of the same name, in the same search path:
+                    # CPython: package > module > namespace directory (find_package has to agree)
+                    files[f"{top}.py"] = _body("py", f"sp{sp}/{top}.py")
         if rng.random() < cfg["p_noise"]:
             files["README.txt"] = "top\n"
         dirs.append(files)
@@ -344,7 +349,8 @@ def conflict_tags(dirs, dotted):
             tags.add("regular-and-namespace-dir-same-name")
         kinds = {k for _, k in occ}
         if kinds & {"py", "pyi", "ext", "pyc"} and "dir" in kinds:
-            tags.add("module-and-directory-same-name")
+            # top-level conflicts are settled by find_package (correctly); the known defect is about sub-modules
+            tags.add("module-and-directory-same-name" if i > 1 else "top-level-module-and-directory")
         if sum(1 for _, k in occ if k in ("pyi", "initpyi")) > 1:
             tags.add("two-stub-files-for-one-module")
     return sorted(tags)
